@@ -14,8 +14,9 @@ for id in $ids; do
   if ! git -C $wt apply $d/patch.diff 2>/dev/null; then echo "$id: PATCH-DOES-NOT-APPLY"; continue; fi
   tags=$(python3 -c "import json,re;m=json.load(open('$d/meta.json'));r=re.search(r'-tags[ =]([\w,]+)',m.get('demo_run') or '');print(r.group(1) if r else '')")
   dd=$(python3 -c "import json;print(json.load(open('$d/meta.json')).get('demo_dir') or '.')")
+  race=$(python3 -c "import json;print('-race' if '-race' in (json.load(open('$d/meta.json')).get('demo_run') or '') else '')")
   cp $d/demo_test.go $wt/$dd/zz_mutdemo_test.go
-  if (cd $wt/$dd && go test -vet=off -count=1 -tags "$tags" -run "TestMutDemo" . >/dev/null 2>&1); then demo="demo=PASS(change-is-neutral!)"; else demo="demo=fails(ok)"; fi
+  if (cd $wt/$dd && go test $race -vet=off -count=1 -tags "$tags" -run "TestMutDemo" . >/dev/null 2>&1); then demo="demo=PASS(change-is-neutral!)"; else demo="demo=fails(ok)"; fi
   rm -f $wt/$dd/zz_mutdemo_test.go
   VERIF_REPO=$wt VERIF_OUT=$out /verif/bin/gosym run -prop $prop -tier quick > $out/$id.log 2>&1; rc=$?
   echo "$id: $demo check_exit=$rc $(grep -c '^VIOLATION' $out/$id.log) violation lines; $(grep "^$prop quick" $out/$id.log | sed 's/.*wall=/wall=/')"
